@@ -10,6 +10,7 @@ import (
 	"strings"
 	"testing"
 	"testing/synctest"
+	"time"
 
 	"github.com/whoisnian/glb/util/ioutil"
 	"pgregory.net/rapid"
@@ -44,11 +45,12 @@ type wcall struct {
 
 type script struct {
 	calls      []wcall
-	stringable bool // wrapped writer implements io.StringWriter
-	greedy     bool // consumer drains in a loop from the start
-	late       int  // consumer only starts before call #late (-1: per-call flags)
-	absent     bool // consumer absent until Close: it asks for Status() only once the writer is inside Close()
-	asksSize   bool // ... and calls Size() before its first receive
+	stringable bool          // wrapped writer implements io.StringWriter
+	greedy     bool          // consumer drains in a loop from the start
+	late       int           // consumer only starts before call #late (-1: per-call flags)
+	absent     bool          // consumer absent until Close: it asks for Status() only once the writer is inside Close()
+	asksSize   bool          // ... and calls Size() before its first receive
+	lateBy     time.Duration // ... after this much time has passed with the writer waiting in Close()
 }
 
 func (s script) render() string {
@@ -70,7 +72,7 @@ func (s script) render() string {
 		}
 		parts = append(parts, p)
 	}
-	return fmt.Sprintf("stringWriter=%v greedy=%v late=%d absentUntilClose=%v asksSizeFirst=%v: %s", s.stringable, s.greedy, s.late, s.absent, s.asksSize, strings.Join(parts, "; "))
+	return fmt.Sprintf("stringWriter=%v greedy=%v late=%d absentUntilClose=%v asksSizeFirst=%v lateBy=%s: %s", s.stringable, s.greedy, s.late, s.absent, s.asksSize, s.lateBy, strings.Join(parts, "; "))
 }
 
 // wrapped writers ---------------------------------------------------------
@@ -246,6 +248,12 @@ func runScript(s script) (string, outcome) {
 			close(closeReturned)
 		}()
 		synctest.Wait()
+		if s.lateBy > 0 {
+			// the consumer is slow: (virtual) time passes while the writer sits in Close() waiting for it. However long
+			// that takes, the final total is what the consumer receives last
+			time.Sleep(s.lateBy)
+			synctest.Wait()
+		}
 		if s.asksSize {
 			// the consumer looks at the total first (the writer is parked in Close(), nothing can change it)
 			if got := pw.Size(); got != total {
@@ -328,6 +336,7 @@ func genScript(t *rapid.T) script {
 	case 2:
 		s.absent = true
 		s.asksSize = rapid.Bool().Draw(t, "consumerAsksSizeFirst")
+		s.lateBy = rapid.SampledFrom([]time.Duration{0, 0, time.Millisecond, time.Second, time.Hour}).Draw(t, "consumerLateBy")
 	}
 	every := rapid.IntRange(0, 4).Draw(t, "consumeEvery") // 0: never until Close
 	n := rapid.IntRange(0, 14).Draw(t, "ncalls")
